@@ -59,6 +59,34 @@ def make_revision(rng, fs):
     return B, name, [m for m in new_members]
 
 
+def directed_pairs():
+    """revisions whose appended members are named almost like old ones: very long names that agree
+    in a long prefix, names that extend or shorten an old name, names that differ in case"""
+    M = lambda n, ps=(): ("method", n, list(ps), False, None)
+    P = [("in", "uint32", None, "x"), ("out", "uint32", None, "y")]
+    out = []
+    long_m = "provision_device_attestation_certificate_chain_for_the_trusted_application_"
+    fams = [
+        ("IKeyProvisioningService", [M(long_m + "ecdsa", P), ("error", "E_" + long_m.upper() + "ECDSA"), ("const", "uint32", "K_" + long_m + "ecdsa", "1"), M("close")],
+         [M(long_m + "rsa", P[:1]), M(long_m + "ecdsa_v2"), ("error", "E_" + long_m.upper() + "RSA"), ("const", "uint32", "K_" + long_m + "rsa", "2")]),
+        ("IStore", [M("get", P), M("get_value", P), M("put", P[:1]), ("error", "FULL"), ("error", "FULL_DISK")],
+         [M("get_", P[:1]), M("ge"), M("get_value2", P), M("put_", P), M("Get", P[:1]), ("error", "FUL"), ("error", "FULL_"), ("error", "Full")]),
+    ]
+    for name, old, new in fams:
+        for derived in (False, True):
+            declsA = [("iface", name, None, old)]
+            declsB = [("iface", name, None, old + new)]
+            if derived:
+                # the members are appended to the base of a derived interface: the derived interface's own
+                # members move, the base's stay
+                declsA = [("iface", name, None, old), ("iface", name + "Ext", name, [M("ext_only", P)])]
+                declsB = [("iface", name, None, old), ("iface", name + "Ext", name, [M("ext_only", P)] + new)]
+            A = {"files": [{"path": "main.idl", "includes": [], "decls": declsA}], "main": "main.idl", "idirs": []}
+            B = {"files": [{"path": "main.idl", "includes": [], "decls": declsB}], "main": "main.idl", "idirs": []}
+            out.append((A, B, name + "Ext" if derived else name, new))
+    return out
+
+
 def stable_rows(A, X):
     """(D, member) pairs whose numbers the property promises to keep: member defined in Y,
     Y in chain(D), X not a proper ancestor of Y"""
@@ -133,6 +161,7 @@ def run(ctx):
         pairs.append((rp["A"], rp["B"], rp["X"], rp["new"]))
     else:
         rng = vlib.mkrng(seed, prop)
+        pairs += directed_pairs()
         while len(pairs) < n:
             A, _ = gen.gen_fileset(rng, allow_obj_struct=False)
             if not all_ifaces(A):
